@@ -99,6 +99,33 @@ func evalC04(c c04Case, o *Obs) error {
 	if err != nil {
 		return fmt.Errorf("NewMaster(%x) failed: %v", []byte(c.Seed), err)
 	}
+	// a key is complete the moment it is returned: a fresh master derives a child / is neutered and is erased
+	// at once - before anybody has looked at the new key - and the new key is everything BIP32 says
+	for _, idx := range []uint32{0x80000000, 0, 0x80000000 + uint32(len(c.Seed)), uint32(len(c.Path))} {
+		if m3, err := hdkeychain.NewMaster(c.Seed, nets[c.Net].Params); err == nil {
+			ch, cerr := m3.Child(idx)
+			rc, rerr := r.child(idx)
+			m3.Zero()
+			if rerr == nil && (cerr != nil || ch.String() != rc.String()) {
+				return fmt.Errorf("NewMaster(%x).Child(%d), parent erased before the child was first used: child is %v (err %v), BIP32 gives %s", []byte(c.Seed), idx, ch, cerr, rc.String())
+			}
+			if rerr == nil {
+				if err := compareNode(ch, rc, c.Net, fmt.Sprintf("child %d of a master that was erased at once", idx)); err != nil {
+					return err
+				}
+			}
+		}
+	}
+	if m4, err := hdkeychain.NewMaster(c.Seed, nets[c.Net].Params); err == nil {
+		n4, nerr := m4.Neuter()
+		m4.Zero()
+		if nerr != nil {
+			return fmt.Errorf("Neuter of a fresh master failed: %v", nerr)
+		}
+		if err := compareNode(n4, r.neuter(), c.Net, "neutered master whose private original was erased at once"); err != nil {
+			return err
+		}
+	}
 	ni := c.Net
 	if c.SetNet >= 0 {
 		k.SetNet(nets[c.SetNet].Params)
